@@ -77,3 +77,91 @@ pub fn tokens(o: &Opts) -> Res<()> {
     eprintln!("vh tokens: {} behaviours, {} trace lines", behs.len(), n);
     Ok(())
 }
+
+/// Model address names: "a4:1" = host a (IPv4) port 1; "c6:9" = host c (IPv6) port 9; "f123" = the
+/// 123rd bulk ("fill") address, a distinct IPv4 host.
+pub fn addr_of(name: &str) -> std::net::SocketAddr {
+    if let Some(n) = name.strip_prefix('f') {
+        let n: u32 = n.parse().unwrap_or(0);
+        let ip = std::net::Ipv4Addr::new(11, (n >> 16) as u8, (n >> 8) as u8, n as u8);
+        return (ip, 1000 + (n % 50000) as u16).into();
+    }
+    let (host, port) = name.split_once(':').unwrap_or((name, "0"));
+    (ip_of(host), port.parse().unwrap_or(0)).into()
+}
+
+pub fn hash_of(name: &str) -> [u8; 20] {
+    let mut h = [0u8; 20];
+    for (i, b) in name.bytes().enumerate().take(20) {
+        h[i] = b;
+    }
+    h
+}
+
+/// Peer store behaviours: ops adv{d} | add{ih,addr} | find{ih} | fill{ih,n,first} | renew{ih,k}.
+pub fn peers(o: &Opts) -> Res<()> {
+    use std::collections::HashMap;
+    let behs = read_lines(o.req("in")?)?;
+    let mut out = TraceOut::create(o.req("out")?)?;
+    let rt = paused_rt();
+    rt.block_on(async {
+        verif::set_epoch();
+        for beh in &behs {
+            let base = verif::now_ms();
+            let now = || verif::now_ms() - base;
+            let mut store = verif::Peers::new();
+            let mut names: HashMap<std::net::SocketAddr, String> = HashMap::new();
+            out.put(json!({"ev":"Reset","t":now()}));
+            let mut add = |store: &mut verif::Peers, out: &mut TraceOut, names: &mut HashMap<_, _>, ih: &str, a: &str| {
+                let sa = addr_of(a);
+                names.insert(sa, a.to_owned());
+                let ok = store.add(hash_of(ih), sa);
+                out.put(json!({"ev":"Add","t":verif::now_ms() - base,"ih":ih,"addr":a,"ok":ok,
+                               "n":store.queue().len(),"m":store.indexed()}));
+            };
+            let find = |store: &mut verif::Peers, out: &mut TraceOut, names: &HashMap<std::net::SocketAddr, String>, ih: &str| -> Vec<String> {
+                let got: Vec<String> = store
+                    .find(hash_of(ih))
+                    .iter()
+                    .map(|sa| names.get(sa).cloned().unwrap_or_else(|| sa.to_string()))
+                    .collect();
+                out.put(json!({"ev":"Find","t":verif::now_ms() - base,"ih":ih,"out":got}));
+                got
+            };
+            let mut bulk = false;
+            for op in ops_of(beh) {
+                match op["op"].as_str().unwrap_or("") {
+                    "adv" => {
+                        advance_ms(op["d"].as_u64().unwrap_or(0)).await;
+                        out.put(json!({"ev":"Adv","t":now()}));
+                    }
+                    "add" => add(&mut store, &mut out, &mut names, op["ih"].as_str().unwrap(), op["addr"].as_str().unwrap()),
+                    "find" => {
+                        find(&mut store, &mut out, &names, op["ih"].as_str().unwrap());
+                    }
+                    "fill" => {
+                        bulk = true;
+                        let first = op["first"].as_u64().unwrap_or(0);
+                        for k in 0..op["n"].as_u64().unwrap_or(0) {
+                            add(&mut store, &mut out, &mut names, op["ih"].as_str().unwrap(), &format!("f{}", first + k));
+                        }
+                    }
+                    "renew" => {
+                        bulk = true;
+                        let ih = op["ih"].as_str().unwrap();
+                        let k = op["k"].as_u64().unwrap_or(1).max(1) as usize;
+                        let cur = find(&mut store, &mut out, &names, ih);
+                        for i in 1..=(cur.len() / k) {
+                            add(&mut store, &mut out, &mut names, ih, &cur[i * k - 1]);
+                        }
+                    }
+                    _ => {}
+                }
+            }
+            let _ = bulk;
+        }
+    });
+    let n = out.finish();
+    eprintln!("vh peers: {} behaviours, {} trace lines", behs.len(), n);
+    Ok(())
+}
